@@ -50,9 +50,9 @@ class DistinguisherMixin(abc.ABC):
 
         self._check(traces=traces, data=data)
 
-        self.processed_traces += traces.shape[0]
         logger.info('Will call _update traces.')
         self._update(traces=traces, data=data)
+        self.processed_traces += traces.shape[0]
 
     @abc.abstractmethod
     def _initialize(self, traces, data):
